@@ -3456,6 +3456,28 @@ def d_pathstop( ctx ):
             res.bad( src, brk[0], 'resolve leaves the segment walk ( break ) once the address is complete', 'a symbolic segment behind an element index is never looked at: A[1].foo ( foo unknown ) is served from A[1] instead of being refused as an unknown tag' )
         else:
             res.ok( src, brk[0], 'segments behind a complete address are skipped one by one ( continue ): a later symbolic segment is still resolved or refused' )
+    # what is skipped: an element segment, or one repeating what is resolved.  A skipped segment that names ANOTHER class / instance /
+    # attribute than the resolved one addresses something else ( [ TAG, attribute 99 ] ): refused, decided by value on the skip branch
+    if len( brk ) == 1:
+        skipcells = (( { 'element': 0 }, 3, 'continue' ), ( { 'attribute': 3 }, 3, 'continue' ), ( { 'attribute': 7 }, 3, 'raise' ),
+                     ( { 'class': 9 }, 3, 'raise' ), ( { 'instance': 2 }, 3, 'raise' ), ( { 'class': 5, 'instance': 1 }, 3, 'continue' ),
+                     ( { 'attribute': 7 }, None, 'continue' ))
+        wrong = []
+        for term, att, want in skipcells:
+            env = { RES: { 'class': 5, 'instance': 1, 'attribute': att }, ATT: att is not None, TERM: term, 'path': { 'segment': [ term ] } }
+            try:
+                out = run_block( brk[0].body, env, ignore_calls=( 'log', ))
+            except NoFold as exc:
+                raise AnalysisError( 'resolve: the skip branch is not a decision fragment: %s' % exc )
+            res.cells += 1
+            if out.kind != want:
+                wrong.append(( term, att, out.kind, want ))
+        if wrong:
+            term, att, got, want = wrong[0]
+            res.bad( src, brk[0], 'resolve skips segment %r behind the resolved address ( 5, 1, %r ): %s, specified %s' % ( term, att, got, want ),
+                     'a segment behind a complete address that names another class, instance or attribute than the resolved one is skipped: a Write Tag to [ TAG, attribute 99 ] is carried out on TAG and acknowledged, instead of being refused as an unknown destination' )
+        else:
+            res.ok( src, brk[0], 'a skipped segment is an element, or repeats the resolved address; one naming something else is refused ( %d cells )' % len( skipcells ))
     # default application after the loop
     dfl = [ s for s in fn.body if isinstance( s, ast.If ) and any( isinstance( b, ast.Assign ) and pmatch( b.targets[0], "%s['attribute']" % RES ) is not None and dotted( b.value ) == ATT for b in s.body ) ]
     if len( dfl ) != 1:
